@@ -176,4 +176,41 @@ def isBrBlock : Block → Bool
     of emphasis, and hard breaks between the lines; contains `Deep2Doc` -/
 def BrDoc (d : Doc) : Bool := d.all isBrBlock
 
+/-! ### inline links -/
+
+/-- no bracket in the printed form: no escaped bracket, no bracket in a code span -/
+def noBracketItem : Inline → Bool
+  | .esc c => c != '[' && c != ']'
+  | .code b => b.all (fun c => c != '[' && c != ']')
+  | _ => true
+
+/-- a destination without `_` and `&` -/
+def simpleDest (d : Str) : Bool := d.all (fun c => c != '_' && c != '&')
+
+/-- an item of `isMixItem`, or an inline link whose text is made of such items and whose destination is simple -/
+def isLinkItem : Inline → Bool
+  | .link c d _ => c.all isMixItem && noBsBeforeCode c && simpleDest d
+  | x => isMixItem x
+
+/-- a link that starts the paragraph has no bracket in its printed text: `[a]: b](u)` would be a reference
+    definition -/
+def firstLinkOK : List Inline → Bool
+  | .link c _ _ :: _ => c.all noBracketItem
+  | _ => true
+
+def linkRun (c : List Inline) : Bool := c.all isLinkItem && noBsBeforeCode c && firstLinkOK c
+
+/-- as `isBrBlock`, and a paragraph may instead be a line of `linkRun`: words, escapes, code spans, emphasised words
+    and inline links around such content -/
+def isLinkBlock : Block → Bool
+  | .para c => brRun c || linkRun c
+  | b => isDeep2Block b
+
+def LinkDoc (d : Doc) : Bool := d.all isLinkBlock
+
+/-- the spelling draws the inline style without angle brackets for every link (`linkStyle` 0): the printed source has
+    no `<` (style 1 writes `<dest>`) and no reference definition (styles 2, 3, 4) -/
+def inlineStyle (d : Doc) (sp : Spelling) : Bool :=
+  (print d sp).all (fun c => c != '<') && (printBlocks true d ⟨sp.choices, 1, []⟩).2.defs.isEmpty
+
 end MdVerif.DocSpec
